@@ -191,9 +191,9 @@ fn defs() -> &'static [CheckDef] {
             CheckDef {
                 id: "C09",
                 props: Props::of(&["C09"]),
-                scens: vec![Scen { name: "dgram-pair-exact", weight: 2, run: dgram_exact }, Scen { name: "dgram-pair-sloppy", weight: 2, run: dgram_sloppy }, Scen { name: "dgram-pair-frag", weight: 1, run: dgram_frag }, Scen { name: "raw-pair", weight: 1, run: raw_scn }],
+                scens: vec![Scen { name: "dgram-pair-exact", weight: 2, run: dgram_exact }, Scen { name: "dgram-pair-sloppy", weight: 2, run: dgram_sloppy }, Scen { name: "dgram-pair-frag", weight: 1, run: dgram_frag }, Scen { name: "raw-pair", weight: 1, run: raw_scn }, Scen { name: "scripted-fragments", weight: 1, run: reasm_scn }, Scen { name: "6lowpan-pair", weight: 1, run: sixlo_scn }],
                 rule: "one run = two real nodes with UDP and ICMP sockets (metadata rings 1-8 slots, payload rings 16-8192 bytes) exchanging tape-chosen datagrams over a faulty link with neighbour-resolution delays and device back-pressure; FIFO reference model per socket; non-trivial = a fault fired AND >= 3 datagrams delivered; distinct = event-log hash",
-                assumptions: vec!["raw sockets are not yet part of the workload", "exactly-once is judged at quiescence (no frame in flight, no deadline) after faults stopped"],
+                assumptions: vec!["exactly-once is judged at quiescence (no frame in flight, no deadline) after faults stopped"],
                 real: REAL,
                 stub: STUB,
                 quick_s: 20.0,
